@@ -43,3 +43,7 @@ Proof.
   cbv zeta. split; [eapply step_valid; eauto|]. split; [intros k; eapply step_get; eauto|].
   split; [intros p; eapply step_scan; eauto|]. split; [eapply step_view; eauto|intros e; eapply step_no_new; eauto].
 Qed.
+
+Theorem reachable_valid_proof cfg acts st os :
+  cfg_ok cfg -> run cfg (init cfg) acts = Some (st, os) -> valid (lv st).
+Proof. intros H1 H2. exact (proj2 (proj2 (reachable_proof cfg acts st os H1 H2))). Qed.
